@@ -281,16 +281,17 @@ theorem bump_of_le {b : Buf} {n : Int} (h : n ≤ b.ri) : bump b n = b := by
 
 /-! ## Closed form of `Decode` after the lazy reset -/
 
-theorem readPayload_eq (c : Codec) (b : Buf) (cap' : Int) (hI : b.Inv) (hd : (declLen b.data : Int) ≤ c.max)
-    (hmax : c.max ≤ Go.I64MAX - 14) (hh : hdrLen b.data ≤ b.data.length) :
-    c.readPayload b (hdrLen b.data : Nat) (declLen b.data : Nat) cap' =
-      if b.data.length < hdrLen b.data + declLen b.data then
-        (b.Reserve (declLen b.data : Nat) cap' >>= fun b' =>
-          .ok ({ c with buf := b', frameLen := 0 }, .needMore, some ((declLen b.data : Nat) : Int)))
+theorem readPayload_eq (c : Codec) (b : Buf) (cap' : Int) {P : List UInt8} (hP : b.data = P) (hI : b.Inv) (hd : (declLen P : Int) ≤ c.max)
+    (hmax : c.max ≤ Go.I64MAX - 14) (hh : hdrLen P ≤ P.length) :
+    c.readPayload b (hdrLen P : Nat) (declLen P : Nat) cap' =
+      if P.length < hdrLen P + declLen P then
+        (b.Reserve (declLen P : Nat) cap' >>= fun b' =>
+          .ok ({ c with buf := b', frameLen := 0 }, .needMore, some ((declLen P : Nat) : Int)))
       else
-        .ok ({ c with buf := bump b ((hdrLen b.data + declLen b.data : Nat) : Int),
-                      frameLen := ((hdrLen b.data + declLen b.data : Nat) : Int), reset := true },
-             .frame (b.data.take (hdrLen b.data + declLen b.data)), none) := by
+        .ok ({ c with buf := bump b ((hdrLen P + declLen P : Nat) : Int),
+                      frameLen := ((hdrLen P + declLen P : Nat) : Int), reset := true },
+             .frame (P.take (hdrLen P + declLen P)), none) := by
+  subst hP
   have hI' := hI
   obtain ⟨hsi, h1, h2, h3, h4, h5⟩ := hI'
   have h14 := hdrLen_le b.data
@@ -311,13 +312,14 @@ theorem readPayload_eq (c : Codec) (b : Buf) (cap' : Int) (hI : b.Inv) (hd : (de
     rw [Nat.min_eq_left (by omega)]
     rfl
 
-theorem readMask_eq (c : Codec) (b : Buf) (cap' : Int) (hI : b.Inv) (hd : (declLen b.data : Int) ≤ c.max)
-    (hmax : c.max ≤ Go.I64MAX - 14) (h2 : 2 ≤ b.data.length) (he : 2 + extLen (byteAt b.data 1) ≤ b.data.length)
-    (hri : ((2 + extLen (byteAt b.data 1) : Nat) : Int) ≤ b.ri) :
-    c.readMask b (b.data.take (2 + extLen (byteAt b.data 1))) ((2 + extLen (byteAt b.data 1) : Nat) : Int)
-        (declLen b.data : Nat) cap' =
-      if b.data.length < hdrLen b.data then .ok (c.fail b .needMore)
-      else c.readPayload (bump b (hdrLen b.data : Nat)) (hdrLen b.data : Nat) (declLen b.data : Nat) cap' := by
+theorem readMask_eq (c : Codec) (b : Buf) (cap' : Int) {P : List UInt8} (hP : b.data = P) (hI : b.Inv) (hd : (declLen P : Int) ≤ c.max)
+    (hmax : c.max ≤ Go.I64MAX - 14) (h2 : 2 ≤ P.length) (he : 2 + extLen (byteAt P 1) ≤ P.length)
+    (hri : ((2 + extLen (byteAt P 1) : Nat) : Int) ≤ b.ri) :
+    c.readMask b (P.take (2 + extLen (byteAt P 1))) ((2 + extLen (byteAt P 1) : Nat) : Int)
+        (declLen P : Nat) cap' =
+      if P.length < hdrLen P then .ok (c.fail b .needMore)
+      else c.readPayload (bump b (hdrLen P : Nat)) (hdrLen P : Nat) (declLen P : Nat) cap' := by
+  subst hP
   have hI' := hI
   obtain ⟨hsi, h1, h2', h3, h4, h5⟩ := hI'
   have h8 := extLen_le (byteAt b.data 1)
@@ -340,14 +342,15 @@ theorem readMask_eq (c : Codec) (b : Buf) (cap' : Int) (hI : b.Inv) (hd : (declL
   · have hl : hdrLen b.data = 2 + extLen (byteAt b.data 1) := by unfold hdrLen maskLen; rw [if_neg hm]; omega
     rw [if_neg (by simpa using hm), if_neg (by omega), hl, bump_of_le hri]
 
-theorem readLength_eq (c : Codec) (b : Buf) (cap' : Int) (hI : b.Inv) (hmax : c.max ≤ Go.I64MAX - 14)
-    (h2 : 2 ≤ b.data.length) (hri : 2 ≤ b.ri) :
-    c.readLength b (b.data.take 2) (2 : Nat) cap' =
-      if b.data.length < 2 + extLen (byteAt b.data 1) then .ok (c.fail b .needMore)
-      else if (declLen b.data : Int) > c.max then
-        .ok (c.fail (bump b ((2 + extLen (byteAt b.data 1) : Nat) : Int)) .tooBig)
-      else c.readMask (bump b ((2 + extLen (byteAt b.data 1) : Nat) : Int)) (b.data.take (2 + extLen (byteAt b.data 1)))
-        ((2 + extLen (byteAt b.data 1) : Nat) : Int) (declLen b.data : Nat) cap' := by
+theorem readLength_eq (c : Codec) (b : Buf) (cap' : Int) {P : List UInt8} (hP : b.data = P) (hI : b.Inv) (hmax : c.max ≤ Go.I64MAX - 14)
+    (h2 : 2 ≤ P.length) (hri : 2 ≤ b.ri) :
+    c.readLength b (P.take 2) (2 : Nat) cap' =
+      if P.length < 2 + extLen (byteAt P 1) then .ok (c.fail b .needMore)
+      else if (declLen P : Int) > c.max then
+        .ok (c.fail (bump b ((2 + extLen (byteAt P 1) : Nat) : Int)) .tooBig)
+      else c.readMask (bump b ((2 + extLen (byteAt P 1) : Nat) : Int)) (P.take (2 + extLen (byteAt P 1)))
+        ((2 + extLen (byteAt P 1) : Nat) : Int) (declLen P : Nat) cap' := by
+  subst hP
   have hI' := hI
   obtain ⟨hsi, h1, h2', h3, h4, h5⟩ := hI'
   have h8 := extLen_le (byteAt b.data 1)
@@ -501,5 +504,172 @@ theorem view_eq {f : FrameBytes} (h2 : 2 ≤ f.length) (hn : f.length = hdrLen f
     unfold frameOf
     simp only [bit80, bit40, bit20, bit10, and0f, hpay, hb0, hml]
     simp
+
+/-! ## `Decode` against the parser -/
+
+/-- Size of the frame returned by the previous `Decode` that is still in the buffer. -/
+def Codec.held (c : Codec) : Nat := if c.reset then c.frameLen.toNat else 0
+
+/-- The bytes the next `Decode` will look at. -/
+def Codec.unconsumed (c : Codec) : List UInt8 := c.buf.data.drop c.held
+
+/-- Invariant of the codec: buffer invariant, room for a header, a sane maximum, and the frame handed out
+last lies inside the read area. -/
+def Codec.Inv (c : Codec) : Prop :=
+  c.buf.Inv ∧ 14 ≤ c.buf.cap ∧ c.max ≤ Go.I64MAX - 14 ∧ (c.reset = true → 0 ≤ c.frameLen ∧ c.frameLen ≤ c.buf.ri)
+
+theorem body_frame {c : Codec} (cap' : Int) (hI : c.buf.Inv) (hmax : c.max ≤ Go.I64MAX - 14)
+    {f : Frame} {n : Nat} (hp : parse c.max c.buf.data = .frame f n) :
+    ∃ B, c.decodeBody cap' = .ok ({ c with buf := B, frameLen := (n : Int), reset := true }, .frame (c.buf.data.take n), none) ∧
+      B.Inv ∧ B.data = c.buf.data ∧ B.cap = c.buf.cap ∧ (n : Int) ≤ B.ri := by
+  obtain ⟨h2, hn, hle, hf, hd⟩ := parse_frame hp
+  have hI' := hI
+  obtain ⟨hsi, h1, h2', h3, h4, h5⟩ := hI'
+  have hh : 2 + extLen (byteAt c.buf.data 1) ≤ hdrLen c.buf.data := by unfold hdrLen; omega
+  have h14 := hdrLen_le c.buf.data
+  have i1 : (bump c.buf 2).Inv := bump_inv hI (by omega)
+  have i2 : (bump (bump c.buf 2) ((2 + extLen (byteAt c.buf.data 1) : Nat) : Int)).Inv := bump_inv i1 (by rw [bump_wi]; omega)
+  have i3 : (bump (bump (bump c.buf 2) ((2 + extLen (byteAt c.buf.data 1) : Nat) : Int)) (hdrLen c.buf.data : Nat)).Inv :=
+    bump_inv i2 (by simp only [bump_wi]; omega)
+  rw [decodeBody_eq c cap' hI hmax, if_neg (by omega)]
+  rw [readLength_eq c (bump c.buf 2) cap' (bump_data _ _) i1 hmax (by omega) (bump_ri_ge _ _)]
+  rw [if_neg (by omega), if_neg (by omega)]
+  rw [readMask_eq c (bump (bump c.buf 2) ((2 + extLen (byteAt c.buf.data 1) : Nat) : Int)) cap' (by simp only [bump_data]) i2
+    (by omega) hmax (by omega) (by omega) (bump_ri_ge _ _), if_neg (by omega)]
+  rw [readPayload_eq c _ cap' (by simp only [bump_data]) i3 (by omega) hmax (by omega), if_neg (by omega), ← hn]
+  exact ⟨_, rfl, bump_inv i3 (by simp only [bump_wi]; omega), by simp only [bump_data], by simp only [bump_cap], bump_ri_ge _ _⟩
+
+theorem body_tooBig {c : Codec} (cap' : Int) (hI : c.buf.Inv) (hmax : c.max ≤ Go.I64MAX - 14)
+    (hp : parse c.max c.buf.data = .tooBig) :
+    ∃ B, c.decodeBody cap' = .ok ({ c with buf := B, frameLen := 0 }, .tooBig, none) ∧
+      B.Inv ∧ B.data = c.buf.data ∧ B.cap = c.buf.cap := by
+  obtain ⟨h2, he, hd⟩ := parse_tooBig hp
+  have hI' := hI
+  obtain ⟨hsi, h1, h2', h3, h4, h5⟩ := hI'
+  have i1 : (bump c.buf 2).Inv := bump_inv hI (by omega)
+  rw [decodeBody_eq c cap' hI hmax, if_neg (by omega)]
+  rw [readLength_eq c (bump c.buf 2) cap' (bump_data _ _) i1 hmax (by omega) (bump_ri_ge _ _)]
+  rw [if_neg (by omega), if_pos hd]
+  exact ⟨_, rfl, bump_inv i1 (by rw [bump_wi]; omega), by simp only [bump_data], by simp only [bump_cap]⟩
+
+theorem body_needMore {c : Codec} (cap' : Int) (hI : c.buf.Inv) (hmax : c.max ≤ Go.I64MAX - 14) (hcap : 14 ≤ c.buf.cap)
+    (hp : parse c.max c.buf.data = .needMore) :
+    c.decodeBody cap' = .error .env ∨
+    ∃ B g, c.decodeBody cap' = .ok ({ c with buf := B, frameLen := 0 }, .needMore, g) ∧
+      B.Inv ∧ B.data = c.buf.data ∧ c.buf.cap ≤ B.cap ∧ 0 < B.cap - B.wi ∧ (∀ k, g = some k → 0 ≤ k ∧ k ≤ c.max) ∧
+      (g = none → B.cap = c.buf.cap) := by
+  have hI' := hI
+  obtain ⟨hsi, h1, h2', h3, h4, h5⟩ := hI'
+  have h14 := hdrLen_le c.buf.data
+  have hh : 2 + extLen (byteAt c.buf.data 1) ≤ hdrLen c.buf.data := by unfold hdrLen; omega
+  rw [decodeBody_eq c cap' hI hmax]
+  by_cases c1 : c.buf.data.length < 2
+  · right
+    rw [if_pos c1]
+    exact ⟨_, none, rfl, hI, rfl, Int.le_refl _, by omega, (fun k hk => by cases hk), fun _ => rfl⟩
+  rw [if_neg c1]
+  have i1 : (bump c.buf 2).Inv := bump_inv hI (by omega)
+  rw [readLength_eq c (bump c.buf 2) cap' (bump_data _ _) i1 hmax (by omega) (bump_ri_ge _ _)]
+  by_cases c2 : c.buf.data.length < 2 + extLen (byteAt c.buf.data 1)
+  · right
+    rw [if_pos c2]
+    exact ⟨_, none, rfl, i1, rfl, Int.le_refl _, by simp only [bump_cap, bump_wi]; omega, (fun k hk => by cases hk), fun _ => rfl⟩
+  rw [if_neg c2]
+  by_cases c3 : (declLen c.buf.data : Int) > c.max
+  · exfalso
+    rw [parse_tooBig_of (by omega) (by omega) c3] at hp; cases hp
+  rw [if_neg c3]
+  have i2 : (bump (bump c.buf 2) ((2 + extLen (byteAt c.buf.data 1) : Nat) : Int)).Inv := bump_inv i1 (by rw [bump_wi]; omega)
+  rw [readMask_eq c (bump (bump c.buf 2) ((2 + extLen (byteAt c.buf.data 1) : Nat) : Int)) cap' (by simp only [bump_data]) i2
+    (by omega) hmax (by omega) (by omega) (bump_ri_ge _ _)]
+  by_cases c4 : c.buf.data.length < hdrLen c.buf.data
+  · right
+    rw [if_pos c4]
+    exact ⟨_, none, rfl, i2, rfl, Int.le_refl _, by simp only [bump_cap, bump_wi]; omega, (fun k hk => by cases hk), fun _ => rfl⟩
+  rw [if_neg c4]
+  have i3 : (bump (bump (bump c.buf 2) ((2 + extLen (byteAt c.buf.data 1) : Nat) : Int)) (hdrLen c.buf.data : Nat)).Inv :=
+    bump_inv i2 (by simp only [bump_wi]; omega)
+  rw [readPayload_eq c _ cap' (by simp only [bump_data]) i3 (by omega) hmax (by omega)]
+  by_cases c5 : c.buf.data.length < hdrLen c.buf.data + declLen c.buf.data
+  · rw [if_pos c5]
+    rcases reserve_cases (declLen c.buf.data : Nat) cap' i3 with he | ⟨B, hB, bi, bd, bw, br, bc, bn, _⟩
+    · left; rw [he]; rfl
+    · right
+      rw [hB]
+      refine ⟨B, _, rfl, bi, by rw [bd]; simp only [bump_data], by simpa only [bump_cap] using bc, ?_, ?_, fun h => by cases h⟩
+      · have : B.wi = (c.buf.data.length : Int) := by rw [bw]; simp only [bump_wi]; omega
+        omega
+      · intro k hk; cases hk; omega
+  · exfalso
+    rw [parse_frame_of (by omega) (by omega) (by omega)] at hp; cases hp
+
+theorem held_le {c : Codec} (hI : c.Inv) : (c.held : Int) ≤ c.buf.ri := by
+  obtain ⟨hb, _, _, hr⟩ := hI
+  unfold Codec.held
+  split
+  · rename_i h; have := hr h; omega
+  · exact hb.2.1
+
+/-- The lazy reset drops exactly the frame handed out by the previous call. -/
+theorem resetDecode_eq {c : Codec} (hI : c.Inv) :
+    ∃ c1, c.resetDecode = .ok c1 ∧ c1.buf.Inv ∧ c1.reset = false ∧ c1.buf.data = c.unconsumed ∧ c1.max = c.max ∧
+      c1.buf.cap = c.buf.cap := by
+  have hI' := hI
+  obtain ⟨hb, hcap, hmax, hr⟩ := hI'
+  unfold Codec.resetDecode Codec.unconsumed Codec.held
+  by_cases hreset : c.reset = true
+  · obtain ⟨h0, h1⟩ := hr hreset
+    rw [if_pos hreset, if_pos hreset]
+    generalize hk : c.frameLen.toNat = k
+    have hfl : c.frameLen = (k : Int) := by omega
+    rw [hfl, consume_eq hb (by omega)]
+    simp only [ebind_ok, epure]
+    exact ⟨_, rfl, consume_inv hb (by omega), rfl, rfl, rfl, rfl⟩
+  · rw [if_neg hreset, if_neg hreset]
+    exact ⟨c, rfl, hb, by simpa using hreset, by simp, rfl, rfl⟩
+
+theorem decode_frame {c : Codec} (cap' : Int) (hI : c.Inv) {f : Frame} {n : Nat}
+    (hp : parse c.max c.unconsumed = .frame f n) :
+    ∃ c', c.Decode cap' = .ok (c', .frame (c.unconsumed.take n), none) ∧ c'.Inv ∧ c'.reset = true ∧ c'.frameLen = n ∧
+      c'.buf.data = c.unconsumed ∧ c'.max = c.max ∧ c'.buf.cap = c.buf.cap := by
+  obtain ⟨c1, h1, i1, r1, d1, m1, k1⟩ := resetDecode_eq hI
+  obtain ⟨_, hcap, hmax, _⟩ := hI
+  unfold Codec.Decode
+  rw [h1]
+  simp only [ebind_ok]
+  obtain ⟨B, hB, bi, bd, bc, bn⟩ := body_frame cap' i1 (by rw [m1]; exact hmax) (by rw [m1, d1]; exact hp)
+  rw [d1] at hB bd
+  refine ⟨_, hB, ⟨bi, by dsimp only; omega, by dsimp only; rw [m1]; exact hmax, fun _ => ⟨by dsimp only; omega, bn⟩⟩,
+    rfl, rfl, bd, m1, by dsimp only; omega⟩
+
+theorem decode_tooBig {c : Codec} (cap' : Int) (hI : c.Inv) (hp : parse c.max c.unconsumed = .tooBig) :
+    ∃ c', c.Decode cap' = .ok (c', .tooBig, none) ∧ c'.Inv ∧ c'.reset = false ∧
+      c'.buf.data = c.unconsumed ∧ c'.max = c.max ∧ c'.buf.cap = c.buf.cap := by
+  obtain ⟨c1, h1, i1, r1, d1, m1, k1⟩ := resetDecode_eq hI
+  obtain ⟨_, hcap, hmax, _⟩ := hI
+  unfold Codec.Decode
+  rw [h1]
+  simp only [ebind_ok]
+  obtain ⟨B, hB, bi, bd, bc⟩ := body_tooBig cap' i1 (by rw [m1]; exact hmax) (by rw [m1, d1]; exact hp)
+  rw [d1] at bd
+  refine ⟨_, hB, ⟨bi, by dsimp only; omega, by dsimp only; rw [m1]; exact hmax, fun h => ?_⟩, r1, bd, m1, by dsimp only; omega⟩
+  dsimp only at h; rw [r1] at h; cases h
+
+theorem decode_needMore {c : Codec} (cap' : Int) (hI : c.Inv) (hp : parse c.max c.unconsumed = .needMore) :
+    c.Decode cap' = .error .env ∨
+    ∃ c' g, c.Decode cap' = .ok (c', .needMore, g) ∧ c'.Inv ∧ c'.reset = false ∧ c'.buf.data = c.unconsumed ∧ c'.max = c.max ∧
+      0 < c'.buf.cap - c'.buf.wi ∧ (∀ k, g = some k → 0 ≤ k ∧ k ≤ c.max) := by
+  obtain ⟨c1, h1, i1, r1, d1, m1, k1⟩ := resetDecode_eq hI
+  obtain ⟨_, hcap, hmax, _⟩ := hI
+  unfold Codec.Decode
+  rw [h1]
+  simp only [ebind_ok]
+  rcases body_needMore cap' i1 (by rw [m1]; exact hmax) (by omega) (by rw [m1, d1]; exact hp) with he | ⟨B, g, hB, bi, bd, bc, bp, bg, _⟩
+  · left; exact he
+  · right
+    rw [d1] at bd
+    refine ⟨_, g, hB, ⟨bi, by dsimp only; omega, by dsimp only; rw [m1]; exact hmax, fun h => ?_⟩, r1, bd, m1, bp, ?_⟩
+    · dsimp only at h; rw [r1] at h; cases h
+    · rw [← m1]; exact bg
 
 end Sonic.Model.WsFrame
